@@ -4,7 +4,12 @@ go 1.21
 
 require (
 	github.com/CrowdStrike/csproto v0.0.0
+	github.com/CrowdStrike/csproto/example v0.0.0
+	github.com/gogo/protobuf v1.3.2
+	github.com/golang/protobuf v1.5.4
 	google.golang.org/protobuf v1.36.4
 )
 
 replace github.com/CrowdStrike/csproto => /repo
+
+replace github.com/CrowdStrike/csproto/example => /repo/example
